@@ -640,6 +640,10 @@ func (c *handlerCtx) handleReply() {
 	if c.callCmd.stat.OK() {
 		stat := c.input.Status()
 		if stat.OK() {
+			// the reply could not be read completely (e.g. its body is not decodable into the result)
+			stat = c.stat
+		}
+		if stat.OK() {
 			stat = c.pluginContainer.postReadReplyBody(c)
 		}
 		c.callCmd.stat = stat
